@@ -192,6 +192,11 @@ class AssociationValidator(BaseValidator):
                 f"Provided '{valid}' of type {type(valid)} for parameter '{name}'"
             )
 
+        if isinstance(value, list):  # multiSelect: every element must belong to the parent
+            for element in value:
+                cls.validate(name, element, valid)
+            return
+
         if isinstance(value, UUID):
             uid = value
         elif isinstance(value, (Entity, PropertyGroup)):
